@@ -80,6 +80,7 @@ type World struct {
 	// Drift: first observation that the real (memory) store holds something that was not written through the store
 	// interface (e.g. a caller mutating an object the store handed out).
 	Drift string
+	redisQuiet bool // harness-internal Redis access (not part of a check)
 }
 
 var (
@@ -246,7 +247,10 @@ func New(spec Spec) *World {
 		w.Mini = Minis.Get()
 		w.Mini.SetTime(w.now)
 		w.rclient = redis.NewClient(&redis.Options{Addr: w.Mini.Addr(), MaxRetries: -1})
+		w.redisQuiet = true
+		w.rclient.AddHook(redisHook{w})
 		r, err := oidc.NewRedisStore(&w.Clock, w.rclient, abs, idle)
+		w.redisQuiet = false
 		if err != nil {
 			panic(err)
 		}
@@ -305,7 +309,10 @@ func (w *World) CrashRestart() {
 	if w.Mini != nil {
 		_ = w.rclient.Close()
 		w.rclient = redis.NewClient(&redis.Options{Addr: w.Mini.Addr(), MaxRetries: -1})
+		w.redisQuiet = true
+		w.rclient.AddHook(redisHook{w})
 		r, err := oidc.NewRedisStore(&w.Clock, w.rclient, abs, idle)
+		w.redisQuiet = false
 		if err != nil {
 			panic(err)
 		}
@@ -342,6 +349,30 @@ func (w *World) ExpectedLogoutRedirect() string {
 	return LogoutRedirect
 }
 
+// ResyncGhost rebuilds the ghost from what the Redis server actually holds (after a command-level fault a store call
+// may have been applied only in part, so the ghost of "successful store calls" no longer describes the store).
+func (w *World) ResyncGhost() {
+	if w.Mini == nil {
+		return
+	}
+	w.redisQuiet = true
+	defer func() { w.redisQuiet = false }()
+	ghost := map[string]*GhostSession{}
+	for _, k := range w.Mini.Keys() {
+		g := &GhostSession{}
+		if t, err := w.Raw.GetTokenResponse(context.Background(), k); err == nil && t != nil {
+			g.Tokens = t
+		}
+		if a, err := w.Raw.GetAuthorizationState(context.Background(), k); err == nil && a != nil {
+			g.State = a
+		}
+		if w.Mini.Exists(k) {
+			ghost[k] = g
+		}
+	}
+	w.Store.Ghost = ghost
+}
+
 // Rollover: the provider rolls its signing key (new EC key, the old one is no longer published).
 func (w *World) Rollover() {
 	w.Rolled = true
@@ -358,6 +389,9 @@ func (w *World) Advance(d time.Duration) {
 		w.Mini.FastForward(d)
 	}
 }
+
+// AbsTimeout is the configured absolute session time-out (0: none).
+func (w *World) AbsTimeout() time.Duration { return time.Duration(w.Spec.Abs) * time.Second }
 
 // CurEnv returns the environment log of the calling check.
 func (w *World) CurEnv() *Env {
@@ -444,8 +478,9 @@ func (w *World) Envoy(r Req) *envoy.CheckRequest {
 
 // Plan is what the environment does during one check.
 type Plan struct {
-	Faults map[int]string `json:"faults,omitempty"`
-	Answer *Answer        `json:"answer,omitempty"`
+	Faults      map[int]string `json:"faults,omitempty"`
+	RedisFaults map[int]string `json:"redis_faults,omitempty"` // Redis command index within the check -> before | after
+	Answer      *Answer        `json:"answer,omitempty"`
 }
 
 // NewHandler builds a handler the way ExtAuthZFilter.Check does (one per check), with the simulated provider
@@ -462,6 +497,7 @@ func (w *World) NewHandler() (authz.Handler, error) {
 // Do performs one check on a fresh handler and parses the outcome.
 func (w *World) Do(r Req, p Plan) Result {
 	w.CurEnv().reset(p.Faults)
+	w.CurEnv().RedisFaults = p.RedisFaults
 	if p.Answer != nil {
 		w.IdP.Mode = *p.Answer
 	} else {
@@ -558,12 +594,32 @@ func (w *World) SessionFromSetCookie(res Result) string {
 	return ""
 }
 
+// SortByIssue orders store keys by the order in which the generator issued the session id they contain (random ids
+// must not decide the order of a canonical dump); keys with no issued id come last, in string order.
+func (w *World) SortByIssue(keys []string) {
+	rank := func(k string) int {
+		for i, sid := range w.Gen.SIDs {
+			if sid != "" && strings.Contains(k, sid) {
+				return i
+			}
+		}
+		return 1 << 30
+	}
+	sort.SliceStable(keys, func(i, j int) bool {
+		ri, rj := rank(keys[i]), rank(keys[j])
+		if ri != rj {
+			return ri < rj
+		}
+		return keys[i] < keys[j]
+	})
+}
+
 // StoreDump is a deterministic dump of the real store's content (memory: white-box snapshot; Redis: HGETALL+TTL).
 func (w *World) StoreDump(withTimes bool) string {
 	var sb strings.Builder
 	if w.Mini != nil {
 		keys := w.Mini.Keys()
-		sort.Strings(keys)
+		w.SortByIssue(keys)
 		for _, k := range keys {
 			fmt.Fprintf(&sb, "[%s", k)
 			fields, _ := w.Mini.HKeys(k)
@@ -597,7 +653,7 @@ func (w *World) StoreDump(withTimes bool) string {
 	for id := range snap {
 		ids = append(ids, id)
 	}
-	sort.Strings(ids)
+	w.SortByIssue(ids)
 	for _, id := range ids {
 		s := snap[id]
 		fmt.Fprintf(&sb, "[%s", id)
